@@ -41,6 +41,12 @@ def cases(tier, seed):
     for base in ("badck", "noise.end", "noise.between", "lead1", "gaps"):
         for i in (0, 1, 6):
             yield {"k": "foreign", "base": base, "files": [APPEND_FILES[i]]}
+    # the same through a host path that is a symbolic link to the tape (the rewritten tape is shorter than the recorded one)
+    for base in ("gaps", "noise.end", "lead1", "gaps.long"):
+        for i in (0, 6):
+            yield {"k": "foreign", "base": base, "files": [APPEND_FILES[i]], "link": True}
+    for i in (0, 6):
+        yield {"k": "foreign", "base": "gaps.long", "files": [APPEND_FILES[i]]}
     for nm in WIDE_NAMES:
         for n in (0, 5, 300):
             yield {"k": "wname", "files": [C.spec(nm, n=n), C.spec("NEXT", n=3)]}
@@ -56,8 +62,17 @@ FOREIGN_OLD = [C.spec("OLD1", n=300, pat="ramp", load=0x1000, exec_=0x1000), C.s
                C.spec("OLD3", n=14, pat="ramp7", load=0xFFF2, exec_=0xFFFE)]
 
 
+FOREIGN_LONG = FOREIGN_OLD + [C.spec("OLD4", n=5000, pat="ramp7", load=0x2000, exec_=0x2000)]
+
+
+def foreign_old(base):
+    return FOREIGN_LONG if base == "gaps.long" else FOREIGN_OLD
+
+
 def foreign_tape(base):
-    files = [dict(name=s["name"], type=s["type"], dtype=s["dtype"], load=s["load"], exec=s["exec"], data=C.pattern(s["n"], s["pat"])) for s in FOREIGN_OLD]
+    files = [dict(name=s["name"], type=s["type"], dtype=s["dtype"], load=s["load"], exec=s["exec"], data=C.pattern(s["n"], s["pat"])) for s in foreign_old(base)]
+    if base == "gaps.long":       # a long recording with a blank and a leader before every block: far longer than the tool's own rendering of the same files
+        return tape.write(files, 128, 128, 16, 128)
     if base == "lead1":
         return tape.write(files, 1, 1, None, 0)
     if base == "gaps":
@@ -83,12 +98,16 @@ def build_by_append(case):
         path = os.path.join(d, "t.cas")
         if case["k"] == "foreign":
             open(path, "wb").write(foreign_tape(case["base"]))
+        real = path
+        if case.get("link"):
+            path = os.path.join(d, "latest.cas")
+            os.symlink("t.cas", path)
         for s in case["files"]:
             vf = VirtualFile(SourceFile(path, file_type=SourceFileType.BINARY), VirtualFileType.CASSETTE)
             vf.open_virtual_file()
             vf.add_coco_file(C.to_coco(s))
             vf.save_virtual_file(append_mode=True)
-        return open(path, "rb").read()
+        return open(real, "rb").read()
 
 
 def check_case(case):
@@ -102,7 +121,7 @@ def check_case(case):
     if case["k"] == "append":
         cell = "append|{}".format(",".join(s["name"] for s in case["files"]))
     if case["k"] == "foreign":
-        cell = "append.foreign|{}|{}".format(case["base"], case["files"][0]["name"])
+        cell = "append.foreign|{}|{}".format(case["base"], case["files"][0]["name"]) + ("|via-link" if case.get("link") else "")
     if case["k"] == "wname":
         cell = "wname|{}|{}".format(case["files"][0]["name"].encode("unicode_escape").decode(), case["files"][0]["n"])
     try:
@@ -126,7 +145,7 @@ def check_case(case):
         bad("malformed stream: " + kind, "well-formed tape stream", msg)
         files = None
     if files is not None:
-        want = case["files"] if case["k"] != "foreign" else FOREIGN_OLD + case["files"]
+        want = case["files"] if case["k"] != "foreign" else foreign_old(case["base"]) + case["files"]
         if len(files) != len(want):
             bad("stream holds {} files for {} written".format(len(files), len(want)), len(want), len(files))
         else:
